@@ -159,7 +159,7 @@ Proof. destruct (bytelex_safe sol0 s) as (ts & -> & ->). reflexivity. Qed.
 
 (* ------------------------------------------------------------------ tie to the source *)
 (* the arms translate/bytesites.py read from src/lex.rs on this run are the transcribed ones *)
-Lemma lex_arms_src_ok : bytesites_recognised = true /\ lex_arms_src = lex_arms.
+Lemma lex_arms_src_ok : lex_sites_recognised = true /\ lex_arms_src = lex_arms.
 Proof. split; reflexivity. Qed.
 
 Theorem bytelex_src_safe (sol0 : bool) (s : str) :
